@@ -161,6 +161,15 @@ def sensitivity(sel, tier) -> int:
             apply_edits(os.path.join(top, "src"), m)
             rc, out, err, wall = run_check_on(os.path.join(top, "src"), m["prop"], tier)
             caught = rc == 1 and f"VIOLATION property={m['prop']}" in out
+            if m.get("expect") == "pass":
+                # a behaviour-preserving / property-preserving edit: the check must stay quiet
+                quiet = rc == 0 and "VIOLATION" not in out
+                print(f"{m['name']:42s} {m['prop']}  {'QUIET (ok)' if quiet else 'FALSE ALARM rc=' + str(rc):12s} {'':60s} {wall:.0f}s", flush=True)
+                if not quiet:
+                    missed += 1
+                    print(out[-1500:])
+                    print(err[-800:])
+                continue
             clauses = sorted({ln.split("clause=")[1].split()[0] for ln in out.splitlines() if "clause=" in ln})
             rows.append((m["name"], m["prop"], "CAUGHT" if caught else f"MISSED rc={rc}", ",".join(clauses), f"{wall:.0f}s"))
             print(f"{m['name']:42s} {m['prop']}  {'CAUGHT' if caught else 'MISSED rc=' + str(rc):12s} {','.join(clauses)[:60]:60s} {wall:.0f}s",
